@@ -179,7 +179,7 @@ inductive Admit where
   deriving DecidableEq, Repr
 
 /-- the checks of `ProcessPartialBeacon` at node `self`, in the order of the code -/
-def Node.admit (self : Nat) (d : Node) (m : Msg) : Admit :=
+def Node.admission (self : Nat) (d : Node) (m : Msg) : Admit :=
   if Gen.ppbFuture m.round (d.clock + 1) then .future
   else if Gen.ppbPast m.round d.head then .past
   else match d.vault.grp.node? m.idx with
@@ -194,7 +194,7 @@ def Node.admit (self : Nat) (d : Node) (m : Msg) : Admit :=
 def Node.recvStep (B self : Nat) (reach : Bool) (d : Node) (m : Msg) : Node :=
   if !d.up then d
   else if !reach then d
-  else match d.admit self m with
+  else match d.admission self m with
     | .admitted => d.aggregate B m.idx m.epoch m.round
     | _ => d
 
